@@ -36,7 +36,7 @@ import (
 )
 
 const (
-	caseTimeout = 4 * time.Second
+	caseTimeout = 10 * time.Second
 	heapLimit   = 3 << 30
 )
 
